@@ -1,6 +1,9 @@
 /-
-A network of stations (each the router model of `Router.lean`) over a broadcast medium with arbitrary delivery order, loss and
-CBF timer expiry, and the termination measure used by `Props.C06.flood_terminates`.  Imports the router model only.
+A network of stations (each the router model of `Router.lean`) over a broadcast medium with arbitrary delivery order, loss,
+duplication (the receiver list of every transmission is chosen by the medium) and CBF timer expiry; the termination measure
+used by `Props.C06.flood_terminates`; the trace of a run (`netTrace`: which station did what) with the per-station counters
+`txCount` / `dlvCount` / `totalTx` of `Props.C06.network_flood_at_most_once`; and the same network with ghost hop counters
+(`HNet`, `netStepH`).  Imports the router model only; executed by the driver on the schedules of the real routers.
 -/
 import FlexModel.Geo.Router
 namespace FlexModel.Geo
@@ -11,6 +14,42 @@ def sends : List Act → List Pkt
   | .send q :: r => q :: sends r
   | _ :: r => sends r
 
+
+/-- CBF timers started by a list of actions -/
+def arms : List Act → List Key
+  | [] => []
+  | .arm k _ :: r => k :: arms r
+  | _ :: r => arms r
+
+/-- deliveries to the upper layer in a list of actions -/
+def dlvs : List Act → List (Kind × Addr × Nat)
+  | [] => []
+  | .deliver k so sn :: r => (k, so, sn) :: dlvs r
+  | _ :: r => dlvs r
+
+/-- transmissions of the packet identity `(a, sn)` in a list of actions -/
+def txOf (a : Addr) (sn : Nat) (acts : List Act) : Nat := (sends acts).countP (fun q => q.so == a && q.sn == sn)
+
+/-- deliveries of the multi-hop packet identity `(a, sn)` to the upper layer in a list of actions -/
+def dlvOf (a : Addr) (sn : Nat) (acts : List Act) : Nat :=
+  (dlvs acts).countP (fun d => !d.1.singleHop && d.2.1 == a && d.2.2 == sn)
+
+/-- the same over an action log (one action list per operation) -/
+def txLog (a : Addr) (sn : Nat) : List (List Act) → Nat
+  | [] => 0
+  | x :: r => txOf a sn x + txLog a sn r
+
+def dlvLog (a : Addr) (sn : Nat) : List (List Act) → Nat
+  | [] => 0
+  | x :: r => dlvOf a sn x + dlvLog a sn r
+
+/-- number of multi-hop packets of `a` with a sequence number other than `sn` in a station's history: what can push
+`sn` out of the duplicate packet list of `a` -/
+def countOther (a : Addr) (sn : Nat) : List ROp → Nat
+  | [] => 0
+  | .rx p _ _ :: r => (if p.so = a ∧ p.kind.singleHop = false ∧ p.sn ≠ sn then 1 else 0) + countOther a sn r
+  | .fire _ :: r => countOther a sn r
+  | .lsreq _ _ :: r => countOther a sn r
 
 /-- weight of a frame in flight / of a buffered frame; `A = fan-out bound + 2` -/
 def wAir (A : Nat) (p : Pkt) : Nat := A ^ (2 * p.rhl)
@@ -84,5 +123,99 @@ def netRun (n : Net) : List NetOp → Net
 def AllEffective (F : Nat) : Net → List NetOp → Prop
   | _, [] => True
   | n, op :: r => Effective n op ∧ fanout op ≤ F ∧ AllEffective F (netStep n op) r
+
+/-! ## trace of a run: which station did what -/
+
+/-- one event of a network run: station `st` performed `op` (a reception or a CBF timer expiry) with the actions `acts` -/
+structure Ev where
+  st : Nat
+  op : ROp
+  acts : List Act
+
+/-- the event of one medium operation (`none`: the operation names no frame in flight / no station, or is a loss) -/
+def netEv (n : Net) : NetOp → Option Ev
+  | .deliver j env now _ =>
+    match n.air[j]? with
+    | none => none
+    | some (i, p) =>
+      match n.nodes[i]? with
+      | none => none
+      | some nd => some ⟨i, .rx p env now, (recvR nd.c nd.s p env now).2⟩
+  | .fire i k _ =>
+    match n.nodes[i]? with
+    | none => none
+    | some nd => some ⟨i, .fire k, (fire nd.s k).2⟩
+  | .lose _ => none
+
+def netTrace : Net → List NetOp → List Ev
+  | _, [] => []
+  | n, op :: r =>
+    match netEv n op with
+    | some e => e :: netTrace (netStep n op) r
+    | none => netTrace (netStep n op) r
+
+/-- history of station `i` (its receptions and timer expiries, in order) and its action log -/
+def hist (i : Nat) : List Ev → List ROp
+  | [] => []
+  | e :: r => if e.st = i then e.op :: hist i r else hist i r
+
+def actsAt (i : Nat) : List Ev → List (List Act)
+  | [] => []
+  | e :: r => if e.st = i then e.acts :: actsAt i r else actsAt i r
+
+/-- transmissions / deliveries of the packet identity `(a, sn)` by station `i` along a trace -/
+def txCount (a : Addr) (sn : Nat) (i : Nat) (tr : List Ev) : Nat := txLog a sn (actsAt i tr)
+def dlvCount (a : Addr) (sn : Nat) (i : Nat) (tr : List Ev) : Nat := dlvLog a sn (actsAt i tr)
+
+/-- all transmissions of `(a, sn)` along a trace, whoever made them -/
+def totalTx (a : Addr) (sn : Nat) : List Ev → Nat
+  | [] => 0
+  | e :: r => txOf a sn e.acts + totalTx a sn r
+
+/-! ## the same network with a ghost hop counter on every frame (for the hop-budget theorem)
+
+`HNet` is `Net` plus: on every frame in flight the number of hops it made (0 = the originator's own transmission), and for
+every copy put into a CBF buffer the number of hops it will have made when its timer sends it.  Erasing the ghost fields
+gives `netStep` (`NetLemmas.toNet_step`). -/
+
+structure HNet where
+  nodes : List Node
+  /-- destination station, frame, hops made -/
+  air : List (Nat × Pkt × Nat)
+  /-- (station, key) ↦ hops of the buffered copy; most recent first -/
+  bufH : List ((Nat × Key) × Nat) := []
+
+def HNet.toNet (x : HNet) : Net := { nodes := x.nodes, air := x.air.map (fun f => (f.1, f.2.1)) }
+
+def hopOf (bh : List ((Nat × Key) × Nat)) (i : Nat) (k : Key) : Nat :=
+  ((bh.find? (fun x => x.1 == (i, k))).map (·.2)).getD 0
+
+def broadcastH (rcv : List Nat) (qs : List Pkt) (h : Nat) : List (Nat × Pkt × Nat) :=
+  qs.flatMap (fun q => rcv.map (fun i => (i, q, h)))
+
+def netStepH (x : HNet) : NetOp → HNet
+  | .deliver j env now rcv =>
+    match x.air[j]? with
+    | none => x
+    | some (i, p, h) =>
+      match x.nodes[i]? with
+      | none => { x with air := x.air.eraseIdx j }
+      | some nd =>
+        let r := recvR nd.c nd.s p env now
+        { nodes := x.nodes.set i { nd with s := r.1 },
+          air := x.air.eraseIdx j ++ broadcastH rcv (sends r.2) (h + 1),
+          bufH := (arms r.2).map (fun k => ((i, k), h + 1)) ++ x.bufH }
+  | .fire i k rcv =>
+    match x.nodes[i]? with
+    | none => x
+    | some nd =>
+      let r := fire nd.s k
+      { x with nodes := x.nodes.set i { nd with s := r.1 },
+               air := x.air ++ broadcastH rcv (sends r.2) (hopOf x.bufH i k) }
+  | .lose j => { x with air := x.air.eraseIdx j }
+
+def netRunH (x : HNet) : List NetOp → HNet
+  | [] => x
+  | op :: r => netRunH (netStepH x op) r
 
 end FlexModel.Geo
